@@ -199,6 +199,98 @@ pub proof fn lemma_tv_all_zero(s: Seq<Limb>, a: nat, b: nat)
     }
 }
 
+/// r = s XOR m, limb by limb
+pub open spec fn is_xor(s: Seq<Limb>, m: Seq<Limb>, r: Seq<Limb>, n: nat) -> bool {
+    forall|k: int| 0 <= k < n ==> r[k].0 == s[k].0 ^ m[k].0
+}
+/// m is the sign mask 1000...0
+pub open spec fn is_top_bit(m: Seq<Limb>, n: nat) -> bool {
+    n >= 1 && m[n - 1].0 == 0x8000_0000_0000_0000u64 && (forall|k: int| 0 <= k < n - 1 ==> m[k].0 == 0)
+}
+
+/// MAX ^ (MAX >> 1) is the sign mask, of value W/2
+pub proof fn lemma_min_bits(a: Seq<Limb>, m: Seq<Limb>, r: Seq<Limb>, n: nat)
+    requires n >= 1, forall|k: int| 0 <= k < n ==> a[k].0 == u64::MAX, val(m, n) == ih(n) - 1, is_xor(a, m, r, n)
+    ensures val(r, n) == ih(n), is_top_bit(r, n)
+{
+    let n1 = (n - 1) as nat;
+    lemma_half(n);
+    // the expected limbs of m: all ones below, 0111..1 on top
+    let e = Seq::new(n, |k: int| if k < n - 1 { Limb(u64::MAX) } else { Limb(0x7fff_ffff_ffff_ffffu64) });
+    lemma_val_all_max(e, n1);
+    let p = bp(n1);
+    assert(val(e, n) == val(e, n1) + e[n - 1].0 as int * p);
+    assert(0x7fff_ffff_ffff_ffff * p == 0x8000_0000_0000_0000 * p - p) by (nonlinear_arith);
+    assert(val(e, n) == val(m, n));
+    lemma_val_inj(m, e, n);
+    assert forall|k: int| 0 <= k < n - 1 implies r[k].0 == 0 by {
+        let x = a[k].0; let y = m[k].0;
+        assert(m[k].0 == e[k].0);
+        assert(x ^ y == 0) by (bit_vector) requires x == 0xffff_ffff_ffff_ffffu64, y == 0xffff_ffff_ffff_ffffu64;
+    }
+    let x = a[n - 1].0; let y = m[n - 1].0;
+    assert(m[n - 1].0 == e[n - 1].0);
+    assert(x ^ y == 0x8000_0000_0000_0000u64) by (bit_vector) requires x == 0xffff_ffff_ffff_ffffu64, y == 0x7fff_ffff_ffff_ffffu64;
+    lemma_val_zero(r, n1);
+    assert(val(r, n) == val(r, n1) + r[n - 1].0 as int * p);
+}
+
+/// XOR with the sign mask adds W/2 to the two's complement value
+pub proof fn lemma_flip_top(s: Seq<Limb>, m: Seq<Limb>, r: Seq<Limb>, n: nat)
+    requires is_top_bit(m, n), is_xor(s, m, r, n)
+    ensures val(r, n) == iv_of(val(s, n), n) + ih(n)
+{
+    let n1 = (n - 1) as nat;
+    lemma_half(n); lemma_top_bit(s, n);
+    let p = bp(n1);
+    assert forall|k: int| 0 <= k < n1 implies r[k] == s[k] by {
+        let x = s[k].0; let y = m[k].0;
+        assert(x ^ y == x) by (bit_vector) requires y == 0;
+    }
+    lemma_val_ext(r, s, n1);
+    let x = s[n - 1].0; let y = m[n - 1].0; let z = r[n - 1].0;
+    assert(z == x ^ y);
+    assert(x >= 0x8000_0000_0000_0000u64 ==> z == x - 0x8000_0000_0000_0000u64) by (bit_vector) requires z == x ^ y, y == 0x8000_0000_0000_0000u64;
+    assert(x < 0x8000_0000_0000_0000u64 ==> z == x + 0x8000_0000_0000_0000u64) by (bit_vector) requires z == x ^ y, y == 0x8000_0000_0000_0000u64;
+    assert(val(r, n) == val(r, n1) + z as int * p);
+    assert(val(s, n) == val(s, n1) + x as int * p);
+    assert((x as int - 0x8000_0000_0000_0000) * p == x as int * p - 0x8000_0000_0000_0000 * p) by (nonlinear_arith);
+    assert((x as int + 0x8000_0000_0000_0000) * p == x as int * p + 0x8000_0000_0000_0000 * p) by (nonlinear_arith);
+}
+
+/// bitwise complement is -x - 1
+pub proof fn lemma_inot(s: Seq<Limb>, m: Seq<Limb>, r: Seq<Limb>, n: nat)
+    requires n >= 1, forall|k: int| 0 <= k < n ==> m[k].0 == u64::MAX, is_xor(s, m, r, n)
+    ensures val(r, n) == bp(n) - 1 - val(s, n), iv_of(val(r, n), n) == -1 - iv_of(val(s, n), n)
+{
+    lemma_val_not(s, r, n);
+    lemma_half(n); lemma_val_bound(s, n);
+}
+
+/// re-signing a magnitude a <= W/2
+pub proof fn lemma_neg_mag(a: int, rv: int, n: nat)
+    requires n >= 1, 0 <= a <= ih(n), rv == (bp(n) - a) % bp(n)
+    ensures iv_of(rv, n) == -a
+{
+    lemma_half(n);
+    lemma_mod_window(bp(n) - a, bp(n));
+}
+
+pub proof fn lemma_sign_mul(a: int, b: int)
+    ensures abs_i(a) * abs_i(b) == abs_i(a * b),
+        abs_i(a) * abs_i(b) * (if (a < 0) != (b < 0) { -1int } else { 1int }) == a * b,
+        abs_i(a) * abs_i(a) == a * a
+{
+    assert((-a) * (-b) == a * b) by (nonlinear_arith);
+    assert((-a) * b == -(a * b)) by (nonlinear_arith);
+    assert(a * (-b) == -(a * b)) by (nonlinear_arith);
+    assert((-a) * (-a) == a * a) by (nonlinear_arith);
+    assert(a >= 0 && b >= 0 ==> a * b >= 0) by (nonlinear_arith);
+    assert(a <= 0 && b <= 0 ==> a * b >= 0) by (nonlinear_arith);
+    assert(a >= 0 && b <= 0 ==> a * b <= 0) by (nonlinear_arith);
+    assert(a <= 0 && b >= 0 ==> a * b <= 0) by (nonlinear_arith);
+}
+
 //@@ subst \b(Self|Uint|Int)::(ZERO|ONE|MINUS_ONE|MIN|MAX|SIGN_MASK|FULL_MASK|BITS|LIMBS|LOG2_BITS)\b(?!\() => \1::\2()
 //@@ subst \b(Uint|Int)::<(\w+)>::(ZERO|ONE|MAX|MIN|BITS)\b(?!\() => \1::<\2>::\3()
 //@@ fn src/uint.rs | impl<const LIMBS: usize> Uint<LIMBS> | as_int | body | props C13 C11
@@ -232,50 +324,6 @@ pub const fn bitxor(&self, rhs: &Self) -> (ret__: Self)
             i += 1;
         }
         Self { limbs }
-    }
-}
-//@@ end
-//@@ fn src/uint.rs | impl<const LIMBS: usize> Uint<LIMBS> | from_words | body | props C16 C11
-impl<const LIMBS: usize> Uint<LIMBS> {
-pub const fn from_words(arr: [Word; LIMBS]) -> (ret__: Self)
-//@+
-    ensures forall|k: int| 0 <= k < LIMBS ==> ret__.limbs@[k].0 == arr@[k]
-//@-
-{
-        let mut limbs = [Limb::ZERO; LIMBS];
-        let mut i = 0;
-        while i < LIMBS
-//@+
-    invariant i <= LIMBS, forall|k: int| 0 <= k < i ==> limbs@[k].0 == arr@[k],
-    decreases LIMBS - i,
-//@-
-{
-            limbs[i] = Limb(arr[i]);
-            i += 1;
-        }
-        Self { limbs }
-    }
-}
-//@@ end
-//@@ fn src/uint.rs | impl<const LIMBS: usize> Uint<LIMBS> | to_words | body | props C16 C11
-impl<const LIMBS: usize> Uint<LIMBS> {
-pub const fn to_words(self) -> (ret__: [Word; LIMBS])
-//@+
-    ensures forall|k: int| 0 <= k < LIMBS ==> ret__@[k] == self.limbs@[k].0
-//@-
-{
-        let mut arr = [0; LIMBS];
-        let mut i = 0;
-        while i < LIMBS
-//@+
-    invariant i <= LIMBS, forall|k: int| 0 <= k < i ==> arr@[k] == self.limbs@[k].0,
-    decreases LIMBS - i,
-//@-
-{
-            arr[i] = self.limbs[i].0;
-            i += 1;
-        }
-        arr
     }
 }
 //@@ end
